@@ -20,7 +20,6 @@ import (
 	"encoding/json"
 	"fmt"
 	"sort"
-	"time"
 
 	"github.com/ontio/ontology-crypto/keypair"
 	"github.com/ontio/ontology/common"
@@ -450,25 +449,18 @@ func Run(c *hx.Ctx) {
 			runReplay(c, pool, r)
 		}
 	}
-	t0 := time.Now()
-	lap := func(n string) { c.Note(fmt.Sprintf("stage %s: %.1fs", n, time.Since(t0).Seconds())); t0 = time.Now() }
 	f12(c, pool)
-	lap("f12")
 	boundary(c, pool)
-	lap("boundary")
 	nScen := c.N(70, 600)
 	for i := 0; i < nScen; i++ {
 		scenario(c, pool)
 	}
-	lap("scenarios")
 	nHist := c.N(60, 500)
 	for i := 0; i < nHist; i++ {
 		history(c, pool)
 	}
-	lap("histories")
 	nMulti := c.N(300, 3000)
 	for i := 0; i < nMulti; i++ {
 		multi(c, pool)
 	}
-	lap("multi")
 }
